@@ -4,40 +4,40 @@ From TS Require Import Model.Str Model.Outcome Model.Unicode Model.Rename Spec.S
 From TS Require Proofs.C16.
 From TS Require Props.C16.
 
-Check (Props.C16.C16_rename_all_agrees_with_serde :
-  forall (uc : unicode), unicode_ok uc ->
+Goal forall (uc : unicode), unicode_ok uc ->
   forall (p : position) (rule_str : option str) (s : str),
     known_C16 p s = None ->
-    good_C16 uc p rule_str s (rename_all_to_case uc s rule_str) = true).
+    good_C16 uc p rule_str s (rename_all_to_case uc s rule_str) = true.
+Proof. exact Props.C16.C16_rename_all_agrees_with_serde. Qed.
 Print Assumptions Props.C16.C16_rename_all_agrees_with_serde.
-Check (Props.C16.C16_field :
-  forall (uc : unicode), unicode_ok uc ->
+Goal forall (uc : unicode), unicode_ok uc ->
   forall rs r s, rule_from_str rs = Some r -> forallb snake_char s = true ->
-    rename_all_to_case uc s (Some rs) = Proofs.C16.as_outcome (apply_to_field r s)).
+    rename_all_to_case uc s (Some rs) = Proofs.C16.as_outcome (apply_to_field r s).
+Proof. exact Props.C16.C16_field. Qed.
 Print Assumptions Props.C16.C16_field.
-Check (Props.C16.C16_variant :
-  forall (uc : unicode), unicode_ok uc ->
+Goal forall (uc : unicode), unicode_ok uc ->
   forall rs r s, rule_from_str rs = Some r -> conv_variant s = true -> allcaps s = false ->
-    rename_all_to_case uc s (Some rs) = Proofs.C16.as_outcome (apply_to_variant uc r s)).
+    rename_all_to_case uc s (Some rs) = Proofs.C16.as_outcome (apply_to_variant uc r s).
+Proof. exact Props.C16.C16_variant. Qed.
 Print Assumptions Props.C16.C16_variant.
-Check (Props.C16.C16_unknown_rule :
-  forall (uc : unicode) rs s, rule_from_str rs = None -> rename_all_to_case uc s (Some rs) = Ok s).
+Goal forall (uc : unicode) rs s, rule_from_str rs = None -> rename_all_to_case uc s (Some rs) = Ok s.
+Proof. exact Props.C16.C16_unknown_rule. Qed.
 Print Assumptions Props.C16.C16_unknown_rule.
-Check (Props.C16.C16_field_has_upper_refuted :
-  Proofs.C16.refuted PField (lit "snake_case") (lit "fooBar")).
+Goal Proofs.C16.refuted PField (lit "snake_case") (lit "fooBar").
+Proof. exact Props.C16.C16_field_has_upper_refuted. Qed.
 Print Assumptions Props.C16.C16_field_has_upper_refuted.
-Check (Props.C16.C16_variant_allcaps_refuted :
-  Proofs.C16.refuted PVariant (lit "snake_case") (lit "URL")).
+Goal Proofs.C16.refuted PVariant (lit "snake_case") (lit "URL").
+Proof. exact Props.C16.C16_variant_allcaps_refuted. Qed.
 Print Assumptions Props.C16.C16_variant_allcaps_refuted.
-Check (Props.C16.C16_variant_has_underscore_refuted :
-  Proofs.C16.refuted PVariant (lit "PascalCase") (lit "Foo_Bar")).
+Goal Proofs.C16.refuted PVariant (lit "PascalCase") (lit "Foo_Bar").
+Proof. exact Props.C16.C16_variant_has_underscore_refuted. Qed.
 Print Assumptions Props.C16.C16_variant_has_underscore_refuted.
-Check (Props.C16.C16_variant_nonascii_refuted :
-  Proofs.C16.refuted PVariant (lit "lowercase") [201%N; 97%N]).
+Goal Proofs.C16.refuted PVariant (lit "lowercase") [201%N; 97%N].
+Proof. exact Props.C16.C16_variant_nonascii_refuted. Qed.
 Print Assumptions Props.C16.C16_variant_nonascii_refuted.
-Check (Props.C16.C16_variant_lower_first_refuted :
-  Proofs.C16.refuted PVariant (lit "PascalCase") (lit "aB")).
+Goal Proofs.C16.refuted PVariant (lit "PascalCase") (lit "aB").
+Proof. exact Props.C16.C16_variant_lower_first_refuted. Qed.
 Print Assumptions Props.C16.C16_variant_lower_first_refuted.
-Check (Props.C16.C16_field_nonascii_refuted :
-  Proofs.C16.refuted PField (lit "UPPERCASE") [233%N; 97%N]).
+Goal Proofs.C16.refuted PField (lit "UPPERCASE") [233%N; 97%N].
+Proof. exact Props.C16.C16_field_nonascii_refuted. Qed.
 Print Assumptions Props.C16.C16_field_nonascii_refuted.
